@@ -65,3 +65,37 @@ Example C18_example :   (* a -> [b], b -> {x: a} : a 2-cycle; and [[[1]]] with l
   (exists r, gvisit [CArr [1%nat]; CArr [2%nat]; CArr [3%nat]; CScalar] 3 [] 0 = Ok r) /\
   gvisit [CArr [1%nat]; CArr [2%nat]; CArr [3%nat]; CScalar] 2 [] 0 = Err ERecursion None.
 Proof. repeat split; try (vm_compute; reflexivity). eexists. vm_compute. reflexivity. Qed.
+
+(* ---- nondeterministic mode on self-referential data ----
+   Model/NdGraph.v: the loop of _nondeterministic_visit over a graph of cells.  Proofs/NdGraphSim.v: it does, step for step, what the loop
+   of Model/NdVisit.v does on the tree obtained by unfolding the graph down to the depth limit (containers one level below the limit
+   shown empty - the loop raises when it reaches one and never looks inside), so the theorems for trees carry over; the nesting of the
+   unfolding is the longest chain of nested containers of the graph.  Whatever the random choices: the traversal completes exactly
+   when no chain of more than `limit` nested containers starts at the root and raises JSONPathRecursionError otherwise - never another
+   error - within a number of iterations of its loop that graph and limit determine (gnd_bound: bounded time); in particular it raises
+   on every structure that can reach itself. *)
+From JP Require Import Model.NdGraph Proofs.NdGraphSim.
+Theorem C18_nd_graph_outcome : forall g limit script loc id fuel, (1 <= limit)%nat -> (gnd_bound g limit id <= fuel)%nat ->
+  (~ cchain g id (S limit) /\ exists r, gnd_visit g fuel limit script (loc, id) = Ok r)
+  \/ (cchain g id (S limit) /\ gnd_visit g fuel limit script (loc, id) = Err ERecursion None).
+Proof. exact gnd_visit_outcome. Qed.
+Print Assumptions C18_nd_graph_outcome.
+Theorem C18_nd_cyclic_raises : forall g limit script loc id fuel, (1 <= limit)%nat -> (gnd_bound g limit id <= fuel)%nat -> reaches g id id ->
+  gnd_visit g fuel limit script (loc, id) = Err ERecursion None.
+Proof. exact gnd_cyclic_raises. Qed.
+Print Assumptions C18_nd_cyclic_raises.
+(* when it completes, the locations visited are those the tree traversal visits on the unfolding, in that order (a valid order by C17_valid_at) *)
+Theorem C18_nd_graph_locations : forall g limit script loc id fuel r, (1 <= limit)%nat -> gnd_visit g fuel limit script (loc, id) = Ok r ->
+  exists r', nd_loop fuel limit script [(Unstarted (loc, unfold g limit id), 2%nat)] [(loc, unfold g limit id)] = Ok r' /\ map fst r' = map fst r.
+Proof. exact gnd_visit_locations. Qed.
+Print Assumptions C18_nd_graph_locations.
+Example C18_nd_graph_example :   (* the 2-cycle a -> [b], b -> {x: a}; and the chain [[[1]]] with limit 3 / 2, scripts [0;0;0;0] *)
+  gnd_visit [CArr [1%nat]; CObj [([120%N], 0%nat)]] 50 5 [3; 1; 4]%Z ([], 0%nat) = Err ERecursion None /\
+  (exists r, gnd_visit [CArr [1%nat]; CArr [2%nat]; CArr [3%nat]; CScalar] 50 3 [0; 0]%Z ([], 0%nat) = Ok r) /\
+  gnd_visit [CArr [1%nat]; CArr [2%nat]; CArr [3%nat]; CScalar] 50 2 [] ([], 0%nat) = Err ERecursion None /\
+  reaches [CArr [1%nat]; CObj [([120%N], 0%nat)]] 0 0.
+Proof.
+  repeat split; try (vm_compute; reflexivity).
+  - eexists. vm_compute. reflexivity.
+  - eapply R_trans; [eapply (R_kid _ 0%nat (KIdx 0) 1%nat); [left; reflexivity | reflexivity] | eapply (R_kid _ 1%nat (KName [120%N]) 0%nat); [left; reflexivity | reflexivity]].
+Qed.
